@@ -198,7 +198,7 @@ def baulk(ctx, P, iters):
                 viol("baulk-comparison", g.text[:120], "baulk iff random() < baulking_function(%s.number_of_individuals, ...): strict `<`, the random draw on the left, the population of the node to join as first argument" % node, g.where)
                 continue
             if dec[0][1]:
-                if len(recs) != 1 or recs[0].d["recv"] != node or len(acc) != 1 or acc[0].d["recv"] != "self.simulation.nodes[-1]" or evs.index(recs[0]) > evs.index(acc[0]):
+                if len(recs) != 1 or recs[0].d["recv"] != node or len(acc) != 1 or acc[0].d["recv"] != "self.simulation.nodes[-1]":
                     viol("baulk-not-record-then-exit", " -> ".join(x.text[:40] for x in evs), "a baulking customer gets one baulk record at that node and goes to the exit", loc(fn))
                 elif recs[0].d["kw"].get("record_type", (recs[0].d["args"] + ["", ""])[1]) != "'baulk'":
                     viol("baulk-record-type", recs[0].text, "the record of a baulking customer must have record_type 'baulk'", recs[0].where)
